@@ -1,5 +1,5 @@
 CONSTANTS
-  VKinds = {"boxed", "retry", "owned", "pois"}
+  VKinds = {"boxed", "retry", "owned", "ref", "pois"}
   VMaxN = 4
   VMaxOps = 2
 INIT VInit
